@@ -41,6 +41,10 @@ class MapIter:
         self.key = key
 
 
+class Aborts(Exception):
+    """the interpreted solver reached std::exit / std::abort on a matrix that admits LU"""
+
+
 class LUDomain(opsdom.OpsDomain):
     """OpsDomain + std::unordered_map<int,double>, std::vector of maps, growing std::vectors"""
 
@@ -103,6 +107,11 @@ class LUDomain(opsdom.OpsDomain):
                 return op in (">", ">=")
         return opsdom.OpsDomain.abs_binop(self, op, a, b, e, fr)
 
+    def global_var(self, e, fr):
+        if e.get("qn") in ("std::cerr", "std::cout", "std::clog"):
+            return "console"
+        return opsdom.OpsDomain.global_var(self, e, fr)
+
     def call(self, e, fr):
         it = self.interp
         k = e["k"]
@@ -110,6 +119,15 @@ class LUDomain(opsdom.OpsDomain):
         base = conc.strip_targs(callee)
         m = base.rsplit("::", 1)[-1]
         args = e["args"]
+        if base in ("std::exit", "exit", "std::abort", "abort", "std::terminate"):
+            raise Aborts("%s() at %s" % (base, ir.locstr(e)))
+        if k == "OpCall" and e["op"] == "<<" and args:
+            s0 = it.rvalue(args[0], fr)
+            if s0 == "console":
+                for a in args[1:]:
+                    if a.get("k") not in ("FnRef", "Str"):
+                        it.rvalue(a, fr)
+                return "console"
         if k == "Construct":
             t = e.get("t", "").replace("const ", "")
             if t.startswith("std::unordered_map<int, double>") and not args:
@@ -308,6 +326,8 @@ def main(tier):
                         break
             except ir.AnalysisBroken as ex:
                 raise
+            except Aborts as ex:
+                bad = "the solver terminates the process although every pivot of this pattern is a non-vanishing symbol: %s" % ex
             except ZeroDivisionError as ex:
                 bad = "division by an identically zero pivot: %s" % ex
             pivots += dom.pivot_tests
